@@ -8,7 +8,7 @@ RULE = (
     "all frame histories up to the depth bound over the frame alphabet (all (multi)sets of <= 2-3 droplet types incl. the empty frame) "
     "x all tracker configurations {overlap, distance x max_dist in (inf,1.25,0.5,-1)} x {no grid, periodic grid} x time variants; "
     "state = history; non-trivial = history contains >= 2 non-empty frames; every history is run on fresh objects"
-    "; grids also with a non-zero lower bound and with mixed periodicity (non-periodic in 1-D); exactly representable (dyadic, 3-4-5) lattices on which contact is decidable; time variants incl. 1e5 + 0.5 k and k*1e-9"
+    "; grids also with a non-zero lower bound and with mixed periodicity (non-periodic in 1-D); exactly representable (dyadic, 3-4-5) lattices on which contact is decidable; time variants incl. 1e5 + 0.5 k and k*1e-9; time courses continued by append() without a time (library-chosen stamps must stay strictly increasing)"
 )
 ASSUMPTIONS = [
     "droplet types from the declared lattices in 1-3 dimensions; depth <= 3 frames (4-5 for single-droplet frames)",
@@ -32,6 +32,12 @@ def run_case(case, ctx):
     tags = {"method": cfg["method"], "grid": cfg["grid"]}
     etc, T, L, dim, times = tr.build(block, hist)
     snap = tr.snapshot(etc)
+    if block.get("how"):
+        ctx.count("library-chosen-time-stamps")
+        ok = all(b > a for a, b in zip(times, times[1:]))
+        ctx.check("C06.times-increasing", ok, {"times": times, "what": "time course continued with append(emulsion) without a time"}, tags)
+        if not ok:
+            return
     try:
         tracks = tr.run_tracking(block, etc, L, dim)
         ctx.op(len(hist))
@@ -77,4 +83,4 @@ def run_case(case, ctx):
 
 def expected_positive(tier):
     return ["C06.partition", "C06.one-per-frame", "C06.gap-free", "C06.input-unmodified", "C06.copies", "two-nonempty-frames",
-            "gap-frame-between-nonempty", "frames-with-internal-overlap", "frames-with-exact-contact"]
+            "gap-frame-between-nonempty", "frames-with-internal-overlap", "frames-with-exact-contact", "library-chosen-time-stamps"]
